@@ -465,6 +465,41 @@ def r8_no_callback_after_commit(ctx, res):
         raise AnalysisError('transaction blocks of add/remove not found')
 
 
+def r9_progress_callbacks_return_nothing(ctx, res):
+    """SQLite aborts the running statement when the callback registered with set_progress_handler returns a non-zero value
+    ("interrupted"): the callables registered there - `progress.update` of the ProgressHandler classes - return None on every
+    path.  A removal that is aborted that way rolls back and leaves the lexicon installed."""
+    n = 0
+    regs = []
+    for f in ctx.repo.all_funcs():
+        for node in walk_no_nested(f.node):
+            if isinstance(node, ast.Call) and isinstance(node.func, ast.Attribute) and node.func.attr == 'set_progress_handler' and node.args:
+                regs.append((f, node))
+    names = set()
+    for f, node in regs:
+        cb = node.args[0]
+        if isinstance(cb, ast.Constant) and cb.value is None:
+            continue
+        if isinstance(cb, ast.Attribute):
+            names.add(cb.attr)
+        elif isinstance(cb, ast.Name):
+            names.add(cb.id)
+    util = ctx.repo.mod('util')
+    for nm in sorted(names):
+        impls = [fn for fn in ctx.repo.all_funcs() if fn.name == nm and fn.cls is not None and fn.module.short == 'util']
+        for fn in impls:
+            n += 1
+            key = f'progress-callback:{fn.qualname}'
+            rets = [r for r in walk_no_nested(fn.node) if isinstance(r, ast.Return) and r.value is not None
+                    and not (isinstance(r.value, ast.Constant) and r.value.value in (None, 0, False))]
+            res.inst(key, fn.module.loc(fn.node), f'registered as SQLite progress callback; value returns: {len(rets)}')
+            for r in rets:
+                res.find(key, fn.module.loc(r), f'{fn.qualname} is registered with set_progress_handler and returns `{norm(r.value)[:40]}`: a '
+                                                f'non-zero value aborts the running statement with "interrupted" - remove() fails on any database '
+                                                f'large enough for the callback to fire')
+    if not regs or n < 1:
+        raise AnalysisError(f'{len(regs)} set_progress_handler registrations, {n} callback implementations found')
+
 RULES = [
     ('C06-R1', r1_one_transaction, 25),
     ('C06-R2', r2_failures_propagate, 1),
@@ -474,4 +509,5 @@ RULES = [
     ('C06-R6', r6_no_state_outside_transaction, 40),
     ('C06-R7', r7_writes_open_the_transaction, 30),
     ('C06-R8', r8_no_callback_after_commit, 2),
+    ('C06-R9', r9_progress_callbacks_return_nothing, 1),
 ]
